@@ -141,7 +141,7 @@ func (na *plainBytes__Assembler) AssignNode(v datamodel.Node) error {
 	if lb, ok := v.(datamodel.LargeBytesNode); ok {
 		lbn, err := lb.AsLargeBytes()
 		if err == nil {
-			na.w = streamBytes{lbn}
+			na.w = NewBytesFromReader(lbn)
 			return nil
 		}
 	}
